@@ -474,6 +474,37 @@ FUNCS["str2freq"] = (lambda s: o_midi2freq(o_str2midi(s)), "note1", False, None)
 FUNCS["freq2str"] = (lambda f: o_midi2str(round(o_freq2midi(f))), "notefreq",
                      True, None)
 
+FLAT = ["C", "Db", "D", "Eb", "E", "F", "Gb", "G", "Ab", "A", "Bb", "B"]
+
+
+def o_midi2str_flat(m):
+  r = o_midi2str(m)
+  if r == "?":
+    return r
+  m = int(m)
+  return FLAT[m % 12] + str(m // 12 - 1)
+
+
+# secondary operands (same for every element): name|variant ->
+# (library function name, extra positional args, extra keyword args)
+EXTRA = {
+  "log|base=2": ("log", (), {"base": 2}),
+  "log|2": ("log", (2,), {}),
+  "log|base=10": ("log", (), {"base": 10}),
+  "ln|base=0.5": ("ln", (), {"base": 0.5}),
+  "midi2str|sharp=False": ("midi2str", (), {"sharp": False}),
+  "midi2str|False": ("midi2str", (False,), {}),
+  "midi2str|sharp=True": ("midi2str", (), {"sharp": True}),
+}
+FUNCS["log|base=2"] = (lambda x: o_log(x, 2), "lognum", False, "x")
+FUNCS["log|2"] = (lambda x: o_log(x, 2), "lognum", False, None)
+FUNCS["log|base=10"] = (lambda x: o_log(x, 10), "lognum", False, "x")
+FUNCS["ln|base=0.5"] = (lambda x: o_log(x, 0.5), "lognum", False, "x")
+FUNCS["midi2str|sharp=False"] = (o_midi2str_flat, "midiint", True,
+                                 "midi_number")
+FUNCS["midi2str|False"] = (o_midi2str_flat, "midiint", True, None)
+FUNCS["midi2str|sharp=True"] = (o_midi2str, "midiint", True, "midi_number")
+
 DOMAINS = {
   "real": [-2.5, -1.0, -0.5, 0.0, 0.25, 0.5, 1.0, 1.5, 3.0, 20.0, 2, -1, 0, 1,
            True, 1e-3, 170.5, -170.5],
@@ -527,8 +558,17 @@ def apply_oracle(fn, v):
 def run_func(ctx, case):
   _, name, kind, vals, kw = case
   oracle, dom, exact, kwname = FUNCS[name]
-  f = getattr(audiolazy, name)
-  call = (lambda a: f(**{kwname: a})) if kw else f
+  if name in EXTRA:
+    fname, xargs, xkw = EXTRA[name]
+    f0 = getattr(audiolazy, fname)
+    ctx.count("secondary-operand")
+    if kw:
+      call = lambda a: f0(**dict(xkw, **{kwname: a}))
+    else:
+      call = lambda a: f0(a, *xargs, **xkw)
+  else:
+    f = getattr(audiolazy, name)
+    call = (lambda a: f(**{kwname: a})) if kw else f
   eq = same if exact else (lambda a, b: close(a, b, ctx, name))
   ctx.count("func:" + name)
   ctx.count("container:" + kind)
@@ -788,5 +828,6 @@ def finish(ctx):
   for c in CONTAINERS:
     ctx.need("container:" + c, 20)
   ctx.need("lazy-element-compared", 100)
+  ctx.need("secondary-operand", 100)
   ctx.flag("cov.operator_methods_in_library_table",
            len(list(OpMethod.get("all"))))
